@@ -112,7 +112,9 @@ class PayloadGen:
     # ---- valid-ish values with a per-node fault probability p --------------------------------
     def wrong(self, avoid):
         pool = [vnull(), vbool(True), vint(3), vneg(-4), vfloat(1.5), vstr("x"), vseq([]), vseq([vint(1)]), vmap([]), vmap([("a", vint(1))]),
-                vint(2**64 - 1), vseq([vint(2**63), vneg(-2**63)]), vstr("quo\"te")]
+                vint(2**64 - 1), vseq([vint(2**63), vneg(-2**63)]), vstr("quo\"te"),
+                # floats without a fractional part are floats; values whose JSON text is long are quoted in full
+                vfloat(3.0), vfloat(-2.0), vstr("long " + "x" * 130), vseq([vint(10000 + i) for i in range(24)])]
         pool = [v for v in pool if v["t"] not in avoid]
         return self.rng.choice(pool)
 
@@ -126,7 +128,7 @@ class PayloadGen:
             return vstr(r.choice(["", "a", "hello", "é", "a,b", "x!", "why?"])) if r.random() >= p else self.wrong({"str"})
         if name == "char":
             if r.random() >= p: return vstr(r.choice(["a", "é", "z"]))
-            return r.choice([vstr(""), vstr("ab"), vstr("abc"), self.wrong({"str"})])
+            return r.choice([vstr(""), vstr("ab"), vstr("abc"), vstr("ñu"), vstr("a" * 63 + "é" + "b"), vstr("é" * 40), self.wrong({"str"})])
         if name in ("f32", "f64"):
             if r.random() >= p: return r.choice([vfloat(1.5), vint(3), vneg(-2), vfloat(-0.0)])
             return self.wrong({"float", "int", "neg"})
@@ -182,7 +184,7 @@ class PayloadGen:
         if k == "cs":
             if r.random() < p * 0.5: return self.wrong({"str"})
             if ty[1] == "u8":
-                return vstr(r.choice(["", "1", "1,2", "1,,2", ",3,", "255"] if r.random() >= p else ["x", "1,x", "256", "1, 2"]))
+                return vstr(r.choice(["", "1", "1,2", "1,,2", ",3,", "255"] if r.random() >= p else ["x", "1,x", "256", "1, 2", "1,x,3,300", "y,z"]))
             return vstr(r.choice(["", "a", "a,b", "a,,b", ",", "a,b,c"]))
         if k == "jvalue" and self.golden:
             return r.choice([vnull(), vint(1), vneg(-3), vfloat(0.5), vstr("s"), vseq([vint(1), vseq([])]), vmap([("a", vmap([("b", vnull())]))]),
